@@ -167,6 +167,30 @@ type ShapeEmbScalar struct {
 	Count `cbor:"4,keyasint" json:"count"`
 }
 
+// a claim whose value is a plain struct (no codec of its own) that mixes a
+// keyasint member, a text-keyed member and an UNTAGGED member (which the plain
+// codecs emit under its Go field name); by value and by pointer
+type SubClaims struct {
+	ID   int64  `cbor:"1,keyasint" json:"id"`
+	Site string `cbor:"site" json:"site"`
+	Note string
+}
+
+type ShapeNested struct {
+	Sub  SubClaims  `cbor:"30,keyasint" json:"sub"`
+	PSub *SubClaims `cbor:"31,keyasint,omitempty" json:"psub,omitempty"`
+	N    *int64     `cbor:"32,keyasint,omitempty" json:"n,omitempty"`
+}
+
+// open-typed claims (any, map[string]any, []any) holding numbers, text,
+// booleans and nested containers
+type ShapeOpen struct {
+	Any any            `cbor:"40,keyasint,omitempty" json:"any,omitempty"`
+	M   map[string]any `cbor:"41,keyasint,omitempty" json:"m,omitempty"`
+	L   []any          `cbor:"42,keyasint,omitempty" json:"l,omitempty"`
+	S   string         `cbor:"43,keyasint" json:"s"`
+}
+
 type ShapeEmpty struct{}
 
 type ShapeAllOptional struct {
@@ -311,6 +335,60 @@ func (s *ShapeEmbScalar) fields() []fd {
 		r = append(r, fd{3, "blob", true, false, icbor.Null(), nil})
 	}
 	return append(r, fInt(4, "count", false, int64(s.Count)))
+}
+
+// fPlain: a field whose expected value is what the plain codecs make of it
+// (the clause "same map as the plain marshaller's", applied to one value).
+func fPlain(key int64, name string, omit, present bool, v any) fd {
+	if !present {
+		return fd{key, name, omit, !omit, icbor.Null(), nil}
+	}
+	b, err := hem.Marshal(v)
+	if err != nil {
+		panic("VERIF-INFRA: " + err.Error())
+	}
+	n, _, err := icbor.Read(b)
+	if err != nil {
+		panic("VERIF-INFRA: " + err.Error())
+	}
+	jb, err := json.Marshal(v)
+	if err != nil {
+		panic("VERIF-INFRA: " + err.Error())
+	}
+	var jv any
+	if err := json.Unmarshal(jb, &jv); err != nil {
+		panic("VERIF-INFRA: " + err.Error())
+	}
+	return fd{key, name, omit, true, n, jv}
+}
+func (s *ShapeNested) fields() []fd {
+	r := []fd{fPlain(30, "sub", false, true, s.Sub)}
+	if s.PSub != nil {
+		r = append(r, fPlain(31, "psub", true, true, *s.PSub))
+	} else {
+		r = append(r, fPlain(31, "psub", true, false, nil))
+	}
+	return append(r, fPtrInt(32, "n", true, s.N))
+}
+func (s *ShapeOpen) fields() []fd {
+	return []fd{fPlain(40, "any", true, s.Any != nil, s.Any), fPlain(41, "m", true, len(s.M) > 0, s.M), fPlain(42, "l", true, len(s.L) > 0, s.L), fStr(43, "s", false, s.S)}
+}
+// open-typed values come back from CBOR in the decoder's generic Go types
+// (maps inside an any as map[any]any ...): the reference for "reproduces the
+// value" is what the plain codec's own round trip reproduces
+func (s *ShapeOpen) stripFor(format string) any {
+	if format != "cbor" {
+		return s
+	}
+	b, err := hem.Marshal(s)
+	if err != nil {
+		panic("VERIF-INFRA: " + err.Error())
+	}
+	r := &ShapeOpen{}
+	if err := hdm.Unmarshal(b, r); err != nil {
+		panic("VERIF-INFRA: " + err.Error())
+	}
+	return r
 }
 func (s *ShapeEmpty) fields() []fd { return nil }
 func (s *ShapeAllOptional) fields() []fd {
@@ -678,8 +756,8 @@ func c15CheckJSON(s shape, fresh func() any, plainComparable bool) string {
 }
 
 func TestC15_Shapes(t *testing.T) {
-	st := NewStats("C15", "TestC15_Shapes", "rapid: seventeen hand-declared struct shapes following the claims convention (flat; one- and two-level embedded struct; embedded interface holding a struct pointer, a struct by value, or nil; empty struct; all-optional struct; a struct whose JSON member names differ only by (Unicode) case; an embedded struct of an unexported type; tag options with omitempty before keyasint; a named field called like its struct type; cbor and json tags that disagree about '-' and omitempty; an integer-kind field type with a text form; keys spelled with leading zeros / a sign; tagged embedded fields of defined NON-struct types) x random field values x random subsets of optional fields set. CBOR: output parsed by the independent reader must be ONE definite map whose entries equal, in declaration order, the hand-written union of outer+embedded fields honouring omitempty and '-'; populate(serialise(x)) == x; for shapes without embedding the decoded map equals the plain marshaller's; bytes stable; deleting any non-optional key or duplicating a key makes populate fail. JSON likewise (no duplicate clause; a differently-cased spelling of a missing non-optional member does not stand in for it). Non-trivial = has an embedded level, or is the empty/all-absent struct; distinct = shape + presence mask")
-	st.Require = []string{"flat", "embedded-1", "embedded-2", "embedded-iface", "embedded-iface-nil", "embedded-iface-value", "case-fold-names", "embedded-unexported-type", "tag-option-order", "field-named-as-type", "tags-disagree", "text-marshaler-enum", "key-spelling", "embedded-scalar-types", "empty", "all-optional", "zero-entries"}
+	st := NewStats("C15", "TestC15_Shapes", "rapid: nineteen hand-declared struct shapes following the claims convention (flat; one- and two-level embedded struct; embedded interface holding a struct pointer, a struct by value, or nil; empty struct; all-optional struct; a struct whose JSON member names differ only by (Unicode) case; an embedded struct of an unexported type; tag options with omitempty before keyasint; a named field called like its struct type; cbor and json tags that disagree about '-' and omitempty; an integer-kind field type with a text form; keys spelled with leading zeros / a sign; tagged embedded fields of defined NON-struct types; a claim whose value is a plain struct with keyasint, text-keyed and untagged members; open-typed claims (any / map / slice of any) holding numbers and nested containers) x random field values x random subsets of optional fields set. CBOR: output parsed by the independent reader must be ONE definite map whose entries equal, in declaration order, the hand-written union of outer+embedded fields honouring omitempty and '-'; populate(serialise(x)) == x; for shapes without embedding the decoded map equals the plain marshaller's; bytes stable; deleting any non-optional key or duplicating a key makes populate fail. JSON likewise (no duplicate clause; a differently-cased spelling of a missing non-optional member does not stand in for it). Non-trivial = has an embedded level, or is the empty/all-absent struct; distinct = shape + presence mask")
+	st.Require = []string{"flat", "embedded-1", "embedded-2", "embedded-iface", "embedded-iface-nil", "embedded-iface-value", "case-fold-names", "embedded-unexported-type", "tag-option-order", "field-named-as-type", "tags-disagree", "text-marshaler-enum", "key-spelling", "embedded-scalar-types", "struct-valued-claim", "open-typed-claims", "empty", "all-optional", "zero-entries"}
 	defer st.Flush(t)
 	rapid.Check(t, func(t *rapid.T) {
 		s, fresh, name := drawShape(t)
@@ -693,6 +771,27 @@ func TestC15_Shapes(t *testing.T) {
 				e.OptLvl = &l
 			}
 			s, fresh, name = e, func() any { return &ShapeEnum{} }, "text-marshaler-enum"
+		case 5:
+			sub := func(l string) SubClaims {
+				return SubClaims{ID: drawInt(t, l+".id"), Site: drawStr(t, l+".site"), Note: drawStr(t, l+".note")}
+			}
+			e := &ShapeNested{Sub: sub("sub"), N: drawOptInt(t, "n")}
+			if genBool.Draw(t, "psub") {
+				ps := sub("psub")
+				e.PSub = &ps
+			}
+			s, fresh, name = e, func() any { return &ShapeNested{} }, "struct-valued-claim"
+		case 6:
+			vals := []any{nil, float64(3), 1.5, float64(-70000), "text", true, []any{float64(1), "two", []any{float64(3)}}, map[string]any{"k": float64(12288)}, map[string]any{"deep": []any{map[string]any{"n": float64(1 << 40)}}}, float64(1 << 53)}
+			pick := func(l string) any { return vals[rapid.IntRange(0, len(vals)-1).Draw(t, l)] }
+			e := &ShapeOpen{Any: pick("any"), S: drawStr(t, "s")}
+			if genBool.Draw(t, "m") {
+				e.M = map[string]any{"x": pick("m.x")}
+			}
+			if genBool.Draw(t, "l") {
+				e.L = []any{pick("l.0"), pick("l.1")}
+			}
+			s, fresh, name = e, func() any { return &ShapeOpen{} }, "open-typed-claims"
 		case 3:
 			s, fresh, name = &ShapeKeySpelling{A: drawOptInt(t, "a"), B: drawStr(t, "b"), C: drawOptStr(t, "c"), D: drawInt(t, "d"), E: drawOptInt(t, "e")}, func() any { return &ShapeKeySpelling{} }, "key-spelling"
 		case 4:
@@ -704,7 +803,7 @@ func TestC15_Shapes(t *testing.T) {
 		case 1:
 			s, fresh, name = &ShapeTagsDisagree{Debug: drawStr(t, "debug"), Count: drawOptInt(t, "count"), Secret: drawStr(t, "secret"), Opt: drawOptStr(t, "opt")}, func() any { return &ShapeTagsDisagree{} }, "tags-disagree"
 		}
-		plain := name == "flat" || name == "empty" || name == "all-optional" || name == "tag-option-order" || name == "field-named-as-type" || name == "tags-disagree" || name == "text-marshaler-enum" || name == "key-spelling" || name == "embedded-scalar-types"
+		plain := name == "flat" || name == "empty" || name == "all-optional" || name == "tag-option-order" || name == "field-named-as-type" || name == "tags-disagree" || name == "text-marshaler-enum" || name == "key-spelling" || name == "embedded-scalar-types" || name == "struct-valued-claim" || name == "open-typed-claims"
 		if msg := c15CheckCBOR(s, fresh, plain); msg != "" {
 			t.Fatalf("C15 violated (CBOR, shape %s): %s", name, msg)
 		}
